@@ -984,3 +984,95 @@ func TestC05Documented(t *testing.T) {
 		vlib.ReportDirect(t, "C05/documented/Ed25519/VerifyAny-bad-hash-accepted", "VerifyAny with an unsupported hash returned true", nil)
 	}
 }
+
+// TestC05Concurrent: K goroutines sign and verify with shared keys at the same time; every
+// signature and verdict must equal the one obtained sequentially (the functions are documented as
+// pure functions of their arguments; nothing in RFC 8032 depends on what other callers do).
+func TestC05Concurrent(t *testing.T) {
+	defer vlib.Done()
+	selftest(t)
+	type item struct {
+		s            *edwards.Scheme
+		pk, msg, sig []byte
+		ctx          []byte
+		want         bool
+	}
+	var items []item
+	for _, s := range edwards.Schemes {
+		for i, km := range pool(s.C) {
+			if !is25519(s) && i > 1 {
+				break
+			}
+			ctx := []byte(nil)
+			if s.Dom {
+				ctx = []byte("concurrent")
+			}
+			for j := 0; j < 6; j++ {
+				msg := []byte(fmt.Sprintf("concurrent-%d-%d-%d", vlib.Seed, i, j))
+				sig := honestSig(s, km, msg, ctx)
+				items = append(items, item{s, km.pk, msg, sig, ctx, true})
+				bad := append([]byte{}, sig...)
+				bad[len(bad)/2+3] ^= 0x10
+				items = append(items, item{s, km.pk, msg, bad, ctx, false})
+			}
+		}
+	}
+	// sequential verdicts first
+	for i := range items {
+		it := &items[i]
+		r := circlVerify(it.s, it.pk, it.msg, it.sig, it.ctx)
+		if r.ok != it.want {
+			it.want = r.ok // a sequential disagreement is the business of TestC05Verify
+		}
+	}
+	km25, km448 := pool(edwards.Ed25519Curve)[0], pool(edwards.Ed448Curve)[0]
+	priv25 := ed25519.NewKeyFromSeed(km25.seed)
+	priv448 := ed448.NewKeyFromSeed(km448.seed)
+	smsg := []byte("shared signing key")
+	want25 := ed25519.Sign(priv25, smsg)
+	want448 := ed448.Sign(priv448, smsg, "")
+	const K = 8
+	rounds := vlib.N(6, 40)
+	var wg sync.WaitGroup
+	var mu sync.Mutex
+	bad := map[string]string{}
+	for g := 0; g < K; g++ {
+		wg.Add(1)
+		go func(g int) {
+			defer wg.Done()
+			for r := 0; r < rounds; r++ {
+				for i := range items {
+					it := &items[(i+g*7)%len(items)]
+					if got := circlVerify(it.s, it.pk, it.msg, it.sig, it.ctx); got.ok != it.want || got.okAny != it.want {
+						mu.Lock()
+						bad["C05/concurrent/"+it.s.Name+"/verdict-differs-from-sequential"] = fmt.Sprintf("goroutine %d round %d: pk=%x msg=%q sig=%x sequential=%v concurrent=%v", g, r, it.pk, it.msg, it.sig, it.want, got.ok)
+						mu.Unlock()
+					}
+				}
+				if !bytes.Equal(ed25519.Sign(priv25, smsg), want25) {
+					mu.Lock()
+					bad["C05/concurrent/Ed25519/signature-differs-from-sequential"] = fmt.Sprintf("goroutine %d round %d", g, r)
+					mu.Unlock()
+				}
+				if !bytes.Equal(ed448.Sign(priv448, smsg, ""), want448) {
+					mu.Lock()
+					bad["C05/concurrent/Ed448/signature-differs-from-sequential"] = fmt.Sprintf("goroutine %d round %d", g, r)
+					mu.Unlock()
+				}
+			}
+		}(g)
+	}
+	wg.Wait()
+	vlib.EvalN("concurrent", int64(K*rounds*(len(items)+2)))
+	vlib.Class("concurrent", fmt.Sprintf("goroutines=%d", K))
+	// the sequential verdicts must still hold afterwards (no state left behind)
+	for i := range items {
+		it := &items[i]
+		if r := circlVerify(it.s, it.pk, it.msg, it.sig, it.ctx); r.ok != it.want {
+			bad["C05/concurrent/"+it.s.Name+"/verdict-changed-after-concurrent-phase"] = fmt.Sprintf("pk=%x msg=%q sig=%x before=%v after=%v", it.pk, it.msg, it.sig, it.want, r.ok)
+		}
+	}
+	for key, detail := range bad {
+		vlib.ReportDirect(t, key, detail, map[string]interface{}{"note": "schedule dependent: re-run the test"})
+	}
+}
